@@ -44,7 +44,7 @@ META = {"engine": "F logging", "technique": "forked twin killed with os._exit(13
 DT = 0.25
 PAD_A = 60
 PAD_B = 10
-LOGS = ("nev", "alw", "duo", "onc")      # logger order: a manual (never) log first, a once log last
+LOGS = ("nev", "alw", "duo", "dek", "onc")      # logger order: a manual (never) log first, a deck-rule log, a once log last
 
 
 # ------------------------------------------------------------------ workload
@@ -93,7 +93,8 @@ def make_spec(conf, nticks, base_id, house="Hc", resume=False):
         if ctl[i]:
             ids.append(rid)
             pre = [["value", "r.a", logx.record_value(rid, PAD_A)],
-                   ["update", "r.b", [["u", logx.record_value(rid, PAD_B)], ["v", rid]]]]
+                   ["update", "r.b", [["u", logx.record_value(rid, PAD_B)], ["v", rid]]],
+                   ["push", "r.d", [["u", logx.record_value(rid, PAD_A)]]]]
             rid += 1
         else:
             ids.append(None)
@@ -103,10 +104,12 @@ def make_spec(conf, nticks, base_id, house="Hc", resume=False):
             "lkw": {"keep": conf["keep"], "cyclePeriod": conf["cycle"], "fileSize": conf["size"],
                     "flushPeriod": conf["flush"], "reuse": conf["reuse"]},
             "shares": [{"path": "r.a", "init": [["value", "init"]]},
-                       {"path": "r.b", "init": [["u", "init"], ["v", -1]]}],
+                       {"path": "r.b", "init": [["u", "init"], ["v", -1]]},
+                       {"path": "r.d", "kind": "deck"}],
             "logs": [{"name": "nev", "rule": "never", "loggees": [{"tag": "a", "share": "r.a", "fields": None}]},
                      {"name": "alw", "rule": "always", "loggees": [{"tag": "a", "share": "r.a", "fields": None}]},
                      {"name": "duo", "rule": "always", "loggees": [{"tag": "b", "share": "r.b", "fields": None}]},
+                     {"name": "dek", "rule": "deck", "loggees": [{"tag": "d", "share": "r.d", "fields": ["u"]}]},
                      {"name": "onc", "rule": "once", "loggees": [{"tag": "a", "share": "r.a", "fields": None}]}],
             "ticks": ticks}
     return spec, ids, rid
@@ -115,7 +118,8 @@ def make_spec(conf, nticks, base_id, house="Hc", resume=False):
 HEADERS = {"nev": logx.expected_header("nev", "never", [("a", ["value"])]),
            "onc": logx.expected_header("onc", "once", [("a", ["value"])]),
            "alw": logx.expected_header("alw", "always", [("a", ["value"])]),
-           "duo": logx.expected_header("duo", "always", [("b", ["u", "v"])])}
+           "duo": logx.expected_header("duo", "always", [("b", ["u", "v"])]),
+           "dek": logx.expected_header("dek", "deck", [("d", ["u"])])}
 
 
 # ------------------------------------------------------------------ disk and model
@@ -556,7 +560,19 @@ def fsfault_case(ctx, conf, nticks, fault, workdir, tag):
         w = lambda extra, name=name, disk=disk: wit(dict(extra, on_disk=describe(disk)))
         generic_invariants(ctx, name, disk, dict(conf, size=0), lambda extra, w=w: w(extra))
         written = [int(t[2]) for t in report if t[0] == "W" and t[1] == name]
-        if written and name in ("alw", "duo"):     # (an `always` log: its newest record is from the final logger run)
+        if written and name in ("alw", "duo", "dek"):
+            # nothing but what the deleted copy held may be missing between the oldest and the newest retained record
+            gone = set()
+            for t in report:
+                if t[0] == "U" and t[1] == name and len(t) > 3 and t[3] != "-":
+                    gone.update(int(x) for x in t[3].split(","))
+            have = set(i for f in disk if f for i in f["ids"])
+            if have:
+                missing = sorted(w_ for w_ in written if w_ >= min(have) and w_ not in have and w_ not in gone)
+                ctx.check(not missing, "fsfault/records-lost-beyond-the-deleted-copy",
+                          "after a rotate copy was deleted, records that copy did not hold are missing from the retained files",
+                          lambda: w({"log": name, "missing": missing[:20], "deleted_copy_held": sorted(gone)[:20]}))
+        if written and name in ("alw", "duo", "dek"):     # (an `always` / `deck` log: its newest record is from the final logger run)
             newest = [f for f in disk[:2] if f]
             ctx.check(any(written[-1] in f["ids"] for f in newest), "fsfault/newest-record-not-in-newest-files",
                       "after a rotate copy was deleted the newest record is not in the main file or the first copy",
@@ -708,8 +724,10 @@ def run(ctx):
     frng = ctx.subrng("c23-fsfault")
     fconfs = [c for c in allc if c["keep"] >= 2 and c["cycle"] <= 3 * DT and not c["reuse"] and c["sched"] == "plain"]
     for conf in frng.sample(fconfs, ctx.pick(6, 16)):
-        faults = [{"tick": frng.randint(6, n - 6), "log": frng.choice(["alw", "duo"]), "copy": frng.randint(1, conf["keep"] - 1)}
+        faults = [{"tick": frng.randint(6, n - 6), "log": frng.choice(["alw", "duo", "dek"]), "copy": frng.randint(1, conf["keep"] - 1)}
                   for _ in range(ctx.pick(2, 6))]
+        if conf["keep"] >= 3:     # the failing rename is not the first one of the chain (copy 02 -> 03 succeeds, 01 -> 02 fails)
+            faults[0]["copy"] = 1
         jobs.append({"mode": "fsfault", "conf": conf, "n": n, "faults": faults})
     ctx.shard(jobs, timeout=ctx.pick(150, 340))
     ctx.floor("fsfault_rotate_copy_deleted", ctx.pick(4, 30))
